@@ -55,6 +55,9 @@ def combine_cases(ctx, vectors1, n, seed, fam="req", mode="random"):
             b = rnd.choice(same)
         else:
             b = rnd.choice(vectors1)
+        # MapParams("a1") takes the whole query string: what another query parameter next to it means is not defined
+        if any(x[key][0]["nest"] == "mapparams" and y[key][0]["loc"] == "query" for x, y in ((a, b), (b, a))):
+            continue
         c = {"pa": a["pa"], "ra": a["ra"], "tagged": False, "pv": a["pv"], "rv": a["rv"]}
         c[key] = a[key] + b[key]
         c[val] = a[val] + b[val]
@@ -156,7 +159,7 @@ def project(v, events):
         if is_whole(pa):
             o["where"] = [whole_where(pa[0], wr[0], "a1")]
         else:
-            o["where"] = hg.observed_where([("a%d" % (i + 1), a["loc"]) for i, a in enumerate(pa)], wr[0])
+            o["where"] = hg.observed_where([("a%d" % (i + 1), a["loc"], a) for i, a in enumerate(pa)], wr[0])
         o["uri"] = wr[0].get("uri")
     inv = hg.find(events, "invoke")
     if inv:
@@ -276,7 +279,7 @@ def case_key(v):
     return core.canon([v["pa"], v["ra"], v.get("tagged", False), v["pv"], v["rv"]])
 
 
-CONTAINER_NESTS = ("elem", "mapkey", "mapval", "mapval_elem", "elem_nested", "mapval_nested", "mapkey_alias", "whole_elem", "whole_mapval")
+CONTAINER_NESTS = ("elem", "mapkey", "mapval", "mapval_elem", "mapparams", "elem_nested", "mapval_nested", "mapkey_alias", "whole_elem", "whole_mapval")
 
 
 def emptyish(a, x):
